@@ -44,15 +44,15 @@ SHARD_TIMEOUT = {'quick': 600, 'thorough': 2400}
 EXHAUSTIVE = {'quick': False, 'thorough': False}
 _Q = {
     'mon:pure': 2500, 'mon:round': 20000, 'mon:keys': 7000, 'mon:stream': 12000,
-    'req:repeat': 500, 'req:jump-backward': 300, 'req:jump-forward': 250, 'req:big': 300, 'req:next': 250,
+    'req:repeat': 500, 'req:same-round-again-at-once': 100, 'hit:consumer-edited-returned-list': 2000, 'req:jump-backward': 300, 'req:jump-forward': 250, 'req:big': 300, 'req:next': 250,
     'via:set_round_num': 700, 'via:fresh-start_round_num': 400, 'via:fresh-set_round_num': 250, 'via:reopened-dataset': 300,
     'stream-restart:r>=1': 300, 'stream-restart:reopened-dataset': 150,
     'kind:mem': 25, 'kind:sql': 25, 'kind:submem': 25, 'kind:subsql': 25, 'kind:sqlslice': 25,
     'nul-family-ids': 60, 'cohort=n': 40, 'cohort=1': 30, 'round>=1e5': 300,
     'stream-seed=0': 6,
 }
-MIN_HITS = {'quick': dict(_Q, **{'hit:fresh-interpreter-history': 60, 'hit:big-population': 5, 'hit:transient-failure-during-sample': 25}),
-            'thorough': dict({k: 15 * v for k, v in _Q.items()}, **{'hit:fresh-interpreter-history': 800, 'hit:big-population': 30})}
+MIN_HITS = {'quick': dict(_Q, **{'hit:fresh-interpreter-history': 60, 'hit:big-population': 8, 'hit:population>=2^20': 3, 'hit:transient-failure-during-sample': 25}),
+            'thorough': dict({k: 15 * v for k, v in _Q.items()}, **{'hit:fresh-interpreter-history': 800, 'hit:big-population': 36, 'hit:population>=2^20': 12})}
 TECHNIQUE = ('runtime monitoring: history-table oracle over (seed, cohort, round) for UniformGetClientSampler under hostile '
              'request orders / fresh samplers / set_round_num, and restart-vs-from-zero differential for '
              'UniformShuffledClientSampler over identically seeded shuffled_clients streams')
@@ -296,6 +296,17 @@ def case_get(ctx, jax, cs, mods, rng, tmpdir, case_no):
           return False
         obs = judge_round(ctx, jax, world, fd, rr.value, cohort, rnd, keyseen, wit, 'round', True)
         compare_history(ctx, hist, rnd, obs, wit, 'pure', ('ids-differ', 'keys-differ', 'data-differ'))
+        # the consumer now does what it likes with ITS list (drops stragglers, reorders, empties it): no later round may care
+        if isinstance(rr.value, list) and rr.value:
+          how = (step + rnd) % 3
+          if how == 0:
+            del rr.value[len(rr.value) // 2:]
+          elif how == 1:
+            rr.value.reverse()
+            rr.value.append(rr.value[0])
+          else:
+            rr.value.clear()
+          ctx.count('hit:consumer-edited-returned-list')
         if rnd not in seen:
           seen.append(rnd)
         if rnd >= 100000:
@@ -312,10 +323,13 @@ def case_get(ctx, jax, cs, mods, rng, tmpdir, case_no):
       bigs = []
       for step in range(int(rng.randint(8, 17)) if alive else 0):
         u = rng.rand()
+        again = False
         if u < 0.15:
           what, rnd = 'next', cur_round
         elif u < 0.45:
           what, rnd = 'repeat', seen[rng.randint(len(seen))]
+          if cur_round > 0 and rng.rand() < 0.35:
+            rnd, again = cur_round - 1, True      # the round this sampler handed out LAST, asked for again right away
         elif u < 0.80:
           rnd = int(rng.randint(0, max(s for s in seen if s < 1000) + 7))
           what = 'jump-backward' if rnd < cur_round else 'jump-forward'
@@ -338,6 +352,9 @@ def case_get(ctx, jax, cs, mods, rng, tmpdir, case_no):
         else:
           v = rng.rand()
           which = int(rng.rand() < 0.5)
+          if again:
+            v = 0.0
+            ctx.count('req:same-round-again-at-once')
           if v < 0.5:
             via = 'set_round_num'
             sampler, fd = cur_sampler, cur_fd
@@ -449,13 +466,16 @@ def case_bigpop(ctx, jax, cs, mods, rng, case_no):
   """Populations of 10^4 clients and more (any size-dependent sampling strategy): sequential rounds, repeated rounds, fresh
   samplers seated at a round, set_round_num jumps -- every observation of a (seed, round) must agree."""
   fdm, im, sq = mods
-  n = int([9999, 10000, 10001, 12000, 16385, 20011, 200500, 262145][case_no % 8])
+  n = int([9999, 10000, 10001, 12000, 16385, 20011, 200500, 262145, 2**20, 2**20 + 1, 2**21 + 5, 2**20 - 1][case_no % 12])
   ex = {'idx': np.zeros(1, np.int64)}
   mapping = {b'p%06d' % i: ex for i in range(n)}
   fd = im.InMemoryFederatedData(mapping)
   seed, cohort = draw_seed(rng), int([1, 50, 200, 777][rng.randint(4)])
   if n > 100000:
     cohort = 1500          # large enough for a birthday collision if clients were drawn with replacement
+  if n >= 2**20 - 1:
+    cohort = n // 1000 - int(rng.randint(0, 3))     # a "tiny" cohort relative to the population, still collision-prone
+    ctx.count('hit:population>=2^20')
   wit = {'family': 'bigpop', 'population': n, 'seed': seed, 'cohort': cohort}
 
   class W:       # the minimal "world" judge_round needs
@@ -485,7 +505,7 @@ def case_bigpop(ctx, jax, cs, mods, rng, case_no):
   if not r.ok:
     return ctx.case_done(None, sample=wit, klass=['bigpop'])
   s0 = r.value
-  ok = all(observe(s0, rnd, 'auto-increment', rnd) for rnd in range(4))
+  ok = all(observe(s0, rnd, 'auto-increment', rnd) for rnd in range(4 if n < 2**20 - 1 else 10))
   if ok:
     ctx.count('hit:big-population')
     ctx.call('set_round_num', s0.set_round_num, 1, witness=wit)
@@ -587,7 +607,7 @@ def run(ctx):
     if not ctx.xproc_child:
       for cid, rng in ctx.cases('flaky', 40 if ctx.quick else 600):
         case_flaky(ctx, jax, cs, mods, rng, int(cid.split('/')[1]))
-      for cid, rng in ctx.cases('bigpop', 8 if ctx.quick else 40):
+      for cid, rng in ctx.cases('bigpop', 12 if ctx.quick else 48):
         case_bigpop(ctx, jax, cs, mods, rng, int(cid.split('/')[1]))
   finally:
     shutil.rmtree(tmpdir, ignore_errors=True)
@@ -644,3 +664,5 @@ if __name__ == '__main__':
   _xproc.child_main(_xproc_child)
 
 TECHNIQUE += '; configuration shards (rbg / unsafe_rbg PRNG, non-partitionable threefry); fresh-interpreter replay under another PYTHONHASHSEED; populations up to 2.6e5 clients; transient callback failures'
+TECHNIQUE += '; populations of 2^20-1 ... 2^21+5 clients with cohort ~N/1000 over 10 rounds; the consumer edits every returned list in place; the round just handed out requested again at once'
+RULE += ' Wave-8 addition: bigpop sizes 2^20-1, 2^20, 2^20+1, 2^21+5 with cohort N/1000 (10 sequential rounds); every list returned by sample() is truncated / reordered / emptied by the harness after it was judged; 35% of the repeat requests ask the same sampler for the round it handed out last.'
